@@ -60,6 +60,7 @@ type H struct {
 	failedFile     string
 	remoteServers  []*httptest.Server
 	remoteRequests []string
+	remoteLog      []string
 }
 
 type schedGate struct {
@@ -636,12 +637,39 @@ func (h *H) Remote(pages ...string) string {
 		mu.Lock()
 		defer mu.Unlock()
 		h.remoteRequests = append(h.remoteRequests, r.URL.String())
+		// log entry: method, URL as the client wrote it, request headers set by the code under test
+		entry := r.Method + " http://" + r.Host + r.URL.String()
+		var hs []string
+		for k, vs := range r.Header {
+			switch k {
+			case "Content-Type", "Content-Length", "User-Agent", "Accept-Encoding", "Connection":
+				continue
+			}
+			hs = append(hs, k+"="+strings.Join(vs, ","))
+		}
+		sort.Strings(hs)
+		for _, x := range hs {
+			entry += " " + x
+		}
+		h.remoteLog = append(h.remoteLog, entry)
 		page := "[]"
 		if served < len(pages) {
 			page = pages[served]
 		}
 		served++
+		// "!<status>[ <body>]": a non-200 answer
+		status := 200
+		if strings.HasPrefix(page, "!") {
+			rest, body := page[1:], ""
+			if k := strings.Index(rest, " "); k >= 0 {
+				rest, body = rest[:k], rest[k+1:]
+			}
+			if n, err := strconv.Atoi(rest); err == nil {
+				status, page = n, body
+			}
+		}
 		w.Header().Set("Content-Type", "application/json")
+		w.WriteHeader(status)
 		_, _ = w.Write([]byte(page))
 	}))
 	h.remoteServers = append(h.remoteServers, srv)
@@ -650,6 +678,12 @@ func (h *H) Remote(pages ...string) string {
 
 // RemoteRequests returns the URLs (path and query) requested from the scripted remote so far.
 func (h *H) RemoteRequests() []string { return append([]string{}, h.remoteRequests...) }
+
+// RemoteLog returns one entry per request to the scripted remote: method, URL
+// and the request headers the code under test set (sorted, "K=v"). The host
+// part of the URL differs between gosx (remote.invalid) and the native server;
+// harnesses compare what follows it.
+func (h *H) RemoteLog() []string { return append([]string{}, h.remoteLog...) }
 
 // CrashAndRecover kills the process at the chosen boundary (child) or runs
 // the child and continues with the recovery part (parent).
